@@ -62,6 +62,11 @@ def str_list(node, what):
 
 
 # fingerprints of the functions whose behaviour Model/Options.v mirrors (pinned commit + fixes)
+PINNED_SMTLIB = {'smtlib._get_sort_aux': 'e6db3208d14a4946', 'smtlib.get_bv_width': 'f2dda2ce4c4d421a', 'smtlib.get_sort': 'efc57b88b88174e1',
+                 'smtlib.is_bv_const': '8a00a2fac137537d', 'smtlib.is_bv_sort': '68212cf1d995eeaf', 'smtlib.is_array_sort': 'b4d5d55dc93ee237',
+                 'smtlib.is_indexed_operator': 'f10d3441f8557a57', 'smtlib.is_indexed_operator_app': '746602fe9b6a609c',
+                 'smtlib.get_indices': 'b8e4f8b45789c5d0', 'smtlib.is_bool_const': '5283f087397e7f55', 'smtlib.is_int_const': '754d5b9456afec21',
+                 'smtlib.is_real_const': 'b6ed0a1e06e81742', 'smtlib.is_index': '7f05ddf238eddf70', 'smtlib.get_bv_constant_value': '0c86b6d12ebe8444'}
 PINNED = {'get_mutators': 'e8934e84f8027b04', 'get_initialized_mutator': 'e3385605b34f17c5', 'toggle_theory': '35fe355af5bcf8f3',
           'toggle_all_theories': 'd4d70cac1d00388b', 'auto_detect_theories': '47881c517263e020',
           'collect_mutator_options': 'e78221e38d802816', 'add_mutator_group': '6ef93d2603718d14',
@@ -158,6 +163,35 @@ def translate(repo=None):
                    "return[stage1,mutators.get_mutators(stage2_names)]")
     if rest != expect_rest:
         raise TranslateError('ddmin_passes: unexpected structure: ' + rest)
+    # operator lists of the sort oracle (smtlib._get_sort_aux, smtlib.get_bv_width)
+    sm = parse(repo, 'smtlib.py')
+    sf = funcs(sm)
+    oplists = {}
+    for fname, names in (('_get_sort_aux', ['sort_bool_ops', 'sort_int_ops', 'sort_real_ops', 'sort_arith_ops', 'sort_fp1_ops', 'sort_fp2_ops']),
+                         ('get_bv_width', ['bvw_same_ops'])):
+        found = []
+        for n in ast.walk(sf[fname]):
+            if isinstance(n, ast.Compare) and len(n.ops) == 1 and isinstance(n.ops[0], ast.In) and isinstance(n.left, ast.Name) \
+                    and n.left.id == 'ident' and isinstance(n.comparators[0], ast.List):
+                found.append((n.lineno, str_list(n.comparators[0], fname)))
+        found.sort()
+        if len(found) != len(names):
+            raise TranslateError(f'{fname}: expected {len(names)} operator lists, found {len(found)}')
+        for nm, (_, l) in zip(names, found):
+            oplists[nm] = l
+        # pin the structure of the function with the list literals blanked out
+        import copy
+        f2 = copy.deepcopy(sf[fname])
+        for n in ast.walk(f2):
+            if isinstance(n, ast.Compare) and isinstance(n.comparators[0], ast.List) and isinstance(n.left, ast.Name) and n.left.id == 'ident':
+                n.comparators[0].elts = []
+        pins['smtlib.' + fname] = fp(f2)
+    for nm in ('get_sort', 'is_bv_const', 'is_bv_sort', 'is_array_sort', 'is_indexed_operator', 'is_indexed_operator_app', 'get_indices',
+               'is_bool_const', 'is_int_const', 'is_real_const', 'is_index', 'get_bv_constant_value'):
+        pins['smtlib.' + nm] = fp(sf[nm])
+    changed2 = sorted(k for k in PINNED_SMTLIB if pins.get(k) != PINNED_SMTLIB[k])
+    if changed2 and PINNED_SMTLIB:
+        raise TranslateError('sort-inference code differs from the code Model/Smtlib.v mirrors: ' + ', '.join(changed2))
     out = ['(* GENERATED by harness/translate_tables.py from ddsmt/mutators*.py, strategy_*.py -- do not edit. *)',
            'From DD Require Export Base.Lit.', 'Open Scope string_scope.', '',
            '(* theory name, defines is_relevant, registry (class name, option name) in get_all_mutators() order *)',
@@ -178,6 +212,8 @@ def translate(repo=None):
     out.append(f'Definition ddmin_stage1 : list str := {qlist(lists["stage1_names"])}.')
     out.append(f'Definition ddmin_stage2 : list str := {qlist(lists["stage2_names"])}.')
     out.append(f'Definition ddmin_exclude : list str := {qlist(lists["exclude"])}.')
+    for nm, l in oplists.items():
+        out.append(f'Definition {nm} : list str := {qlist(l)}.')
     out.append('')
     return '\n'.join(out) + '\n', dict(pins=pins, theories=[(t, hr, len(r)) for t, hr, r in tables])
 
